@@ -142,8 +142,11 @@ impl Monitor for C06 {
         }
         let Some(c) = parse_swap(&obs.ix) else { return };
         let (Some(pre), Some(post)) = (obs.pre.data(&c.pool).and_then(codec::Pool::decode), w.bank.data(&c.pool).and_then(codec::Pool::decode)) else { return };
-        if !plain_pool(&w.bank, &pre) {
-            return;
+        // pools over fee-bearing Token-2022 mints: the split of the curve input and the pool's bookkeeping are judged the
+        // same way; what the trader hands over additionally carries the token program's fee (the details are C16's)
+        let fee_pool = !plain_pool(&w.bank, &pre);
+        if fee_pool {
+            acc.count("swaps_checked_on_transfer_fee_pools");
         }
         let sw = swaps_of(&obs.out);
         if sw.len() != 1 {
@@ -203,12 +206,20 @@ impl Monitor for C06 {
         let vout = bal(&obs.pre, &out_vault) as i128 - bal(&w.bank, &out_vault) as i128;
         let total_in = (&sum_in + &sum_fee).to_i128().unwrap();
         let total_out = sum_out.to_i128().unwrap();
-        if in_user != out_user {
+        if in_user != out_user && !fee_pool {
             if paid != total_in || vin != total_in {
                 fail(acc, "input_conservation", format!("sum(in+fee) over steps = {total_in}, trader paid {paid}, vault received {vin}"));
             }
             if got != total_out || vout != total_out {
                 fail(acc, "output_conservation", format!("sum(out) over steps = {total_out}, trader received {got}, vault paid {vout}"));
+            }
+        } else if in_user != out_user {
+            // the curve amount plus fee must have reached the vault (the trader pays the token program's fee on top)
+            if vin < total_in || paid < vin {
+                fail(acc, "input_conservation", format!("sum(in+fee) over steps = {total_in} but the vault received {vin} (trader paid {paid}) on a transfer-fee pool"));
+            }
+            if vout != total_out || got > vout {
+                fail(acc, "output_conservation", format!("sum(out) over steps = {total_out}, vault paid {vout}, trader received {got} on a transfer-fee pool"));
             }
         }
         // nothing else leaves the trader's accounts
@@ -254,6 +265,13 @@ impl Monitor for C06 {
         let ev = traded_events(&obs.out.events);
         if ev.len() != 1 {
             fail(acc, "event_missing", format!("{} Traded events", ev.len()));
+        } else if fee_pool {
+            // user-facing amounts of the record are C16's; the fee split it reports is judged here
+            let e = &ev[0];
+            let lp_total = sum_fee.to_u128().unwrap() - sum_cut;
+            if e.lp_fee as u128 != lp_total || e.protocol_fee as u128 != sum_cut || e.pre_sqrt_price != pre.sqrt_price || e.post_sqrt_price != post.sqrt_price {
+                fail(acc, "event_mismatch", format!("Traded {e:?} vs observed lp {lp_total} protocol {sum_cut} pre {} post {}", pre.sqrt_price, post.sqrt_price));
+            }
         } else {
             let e = &ev[0];
             let lp_total = sum_fee.to_u128().unwrap() - sum_cut;
